@@ -289,6 +289,16 @@ def oracle_c01(f, txn, r):
     t = txn_for_engine(txn)
     gv = spec_globals(f, t)            # the file's variables evaluated by the harness (undefined where they cannot be evaluated)
     truth = [rule_truth(eng, rule, t, gv)[0] for rule in eng.rules]
+    # conditions whose truth the harness knows WITHOUT the evaluator: a range over the amount / the month written as a comparison chain of
+    # numeric literals is true exactly when Python's own chain over the same numbers is
+    for i, rule in enumerate(eng.rules):
+        if re.fullmatch(r'-?[\d.]+(e-?\d+)? (<|<=|>|>=) (amount|month) (<|<=|>|>=) -?[\d.]+(e-?\d+)?( (<|<=|>|>=) -?[\d.]+(e-?\d+)?)?', rule.match_expr) \
+                and (txn.get('date') or 'month' not in rule.match_expr):
+            own = bool(eval(rule.match_expr, {'__builtins__': {}}, {'amount': t.get('amount') or 0, 'month': txn['date'].month if txn.get('date') else 0}))
+            if own != truth[i]:
+                fails.append({'class': 'condition-misjudged', 'rules': text, 'txn': jtxn(txn), 'rule': rule.name, 'condition': rule.match_expr,
+                              'observed (the evaluator)': truth[i], 'required (the same comparison chain over the same numbers)': own})
+            truth[i] = own
     res = eng.match(copy.deepcopy(t))
     win = next((i for i, rule in enumerate(eng.rules) if truth[i] and rule.category), None)
     want = (eng.rules[win].merchant, eng.rules[win].category, eng.rules[win].subcategory) if win is not None else ('', '', '')
